@@ -110,6 +110,7 @@ func (o *observerImpl[T]) NextWithContext(ctx context.Context, value T) {
 		return
 	}
 
+	verifPoint("observer:NextWithContext:deliver", o)
 	o.tryNext(ctx, value)
 }
 
@@ -123,6 +124,7 @@ func (o *observerImpl[T]) ErrorWithContext(ctx context.Context, err error) {
 		return
 	}
 
+	verifPoint("observer:ErrorWithContext:deliver", o)
 	o.tryError(ctx, err)
 }
 
@@ -136,6 +138,7 @@ func (o *observerImpl[T]) CompleteWithContext(ctx context.Context) {
 		return
 	}
 
+	verifPoint("observer:CompleteWithContext:deliver", o)
 	o.tryComplete(ctx)
 }
 
